@@ -18,7 +18,8 @@ MANIFEST = {
             "exactly the detachable parts removed (two-flag generic round trip), and the kernel-decided obligation that writer flags, "
             "reader flags (regenerated from the `not cls.stripped` guards) and the hand-written spec list coincide class by class. "
             "Tie: differential run of both JSON writers, the document-level strip operation and all four JSON reader modes against the "
-            "model; the XML stripped reader is tied by the oracle (relative to the full XML reader).",
+            "model; the XML stripped reader is tied by the oracle (relative to the full XML reader)."
+            " Also regenerated and proved: _select_encoder/_select_decoder return, for stripped=s, a class whose stripped attribute is s (c18_mode_selection).",
     "note": "as C03; failsafe readers coincide with strict ones on undamaged documents (C09); the XML reader's strip flags are checked "
             "behaviourally (oracle) — its table is hand-written in C04",
     "technique": "Lean 4 proof: generic strip/round-trip theorems over regenerated tables + decide on flag agreement; differential correspondence",
